@@ -943,3 +943,48 @@ Proof.
   split; [|exact (sr_wf _ _ R)]. pose proof (Forall2_nth _ _ _ i (sr_txs _ _ R)) as F. rewrite N in F.
   destruct (nth_error (rs_txs (rexec (mkRstate init [] []) ops)) i) as [rt|]; [|contradiction]. now exists rt.
 Qed.
+
+(* ------------------------------------------------------------------ the whole transaction: what a Get returns *)
+Lemma raw_view_replay : forall t rt s, tx_rel t rt ->
+  raw_view t s = snap_map (replay (r_log rt) (tx_pristine t)) s.
+Proof. intros t rt s R. unfold raw_view. symmetry. apply (view_eq t rt _ s R (rel_wfp _ _ R)). Qed.
+
+(* the value LAST written: after any sequence of writes (r_log rt = all successful Sets of the transaction, in order),
+   an option whose last covering write was ks := v - no later write of the transaction touches a path comparable with
+   ks - reads as v, and so does everything below it; with v = null: the option is gone *)
+Theorem view_last_written : forall t rt lg1 lg2 s ks v, tx_rel t rt ->
+  r_log rt = lg1 ++ (s, ks, v) :: lg2 ->
+  (forall w, In w lg2 -> fst (fst w) = s -> diverge ks (snd (fst w)) = true) ->
+  forall q, tx_get t s (ks ++ q) = get_node q (purge v).
+Proof.
+  intros t rt lg1 lg2 s ks v R EL D q.
+  assert (OK : tx_ok t) by (now exists rt).
+  pose proof (rel_wfl _ _ R) as WL. rewrite EL in WL. apply Forall_app in WL. destruct WL as [_ WL].
+  inversion WL as [|? ? [Wv NE] _]; subst. cbn in Wv, NE.
+  assert (G : get_node ks (lookup s (replay (r_log rt) (tx_pristine t))) = GOk v).
+  { rewrite EL. change (lg1 ++ (s, ks, v) :: lg2) with (lg1 ++ [(s, ks, v)] ++ lg2). rewrite app_assoc, replay_app.
+    apply replay_diverge_ok; [exact D|]. rewrite replay_snoc, lookup_aset_eq. apply get_tset_same. }
+  rewrite tx_get_node; [|exact OK|destruct ks; [congruence|discriminate]].
+  rewrite (raw_view_replay t rt s R). unfold snap_map.
+  destruct (lookup s (replay (r_log rt) (tx_pristine t))) as [u|] eqn:E; [|now rewrite get_node_none in G].
+  destruct ks as [|k r]; [congruence|]. destruct u as [| z | l]; try discriminate.
+  rewrite get_node_app, G. change (purge v) with (opurge (Some v)). now rewrite get_node_purge.
+Qed.
+
+(* the COMMITTED value if not written: an option present in the configuration the transaction started from (or last
+   committed onto) and on a path diverging from every write of the transaction reads as it was committed (nulls purged) *)
+Theorem view_unwritten_is_committed : forall t rt s q t0, tx_rel t rt -> q <> [] ->
+  (forall w, In w (r_log rt) -> fst (fst w) = s -> diverge q (snd (fst w)) = true) ->
+  get_node q (lookup s (tx_pristine t)) = GOk t0 ->
+  tx_get t s q = pg (GOk t0).
+Proof.
+  intros t rt s q t0 R NQ D G. assert (OK : tx_ok t) by (now exists rt).
+  pose proof (replay_diverge_ok _ _ _ _ _ D G) as G'.
+  rewrite tx_get_node by assumption. rewrite (raw_view_replay t rt s R). unfold snap_map.
+  destruct (lookup s (replay (r_log rt) (tx_pristine t))) as [u|] eqn:E; [|now rewrite get_node_none in G'].
+  destruct q as [|k r]; [congruence|]. destruct u as [| z | l]; try discriminate. now rewrite G'.
+Qed.
+
+(* a transaction that has written nothing reads the committed configuration it started from *)
+Theorem fresh_reads_committed : forall c s q, tx_get (new_tx c) s q = get_from q (purge_list (snap_map c s)).
+Proof. reflexivity. Qed.
